@@ -13,7 +13,7 @@ use rayon::prelude::*;
 use regex::Regex;
 use serde::{Deserialize, Serialize};
 use sha2::{Digest, Sha256};
-use std::collections::{BTreeSet, HashMap};
+use std::collections::{BTreeMap, BTreeSet, HashMap};
 use std::fs::{self, File};
 use std::io::BufWriter;
 use std::path::{Path, PathBuf};
@@ -623,6 +623,25 @@ pub fn scan_repository_multi(
         // Overlapping search roots (nested or repeated) find the same node once per root;
         // schedule every node at most once.
         dedup_renames(&mut all_renames);
+        // Every root was checked for conflicts on its own; renames found under different roots
+        // (two files given as search paths, say) can still share a destination.
+        let mut sources_by_target: BTreeMap<&Path, Vec<&Path>> = BTreeMap::new();
+        for rename in all_renames
+            .iter()
+            .filter(|r| !r.new_path.as_os_str().is_empty())
+        {
+            sources_by_target
+                .entry(&rename.new_path)
+                .or_default()
+                .push(&rename.path);
+        }
+        if let Some((target, sources)) = sources_by_target.iter().find(|(_, s)| s.len() > 1) {
+            return Err(anyhow::anyhow!(
+                "Found 1 rename conflicts:\nMultipleToOne: {:?} -> {}",
+                sources,
+                target.display()
+            ));
+        }
         all_renames
     } else {
         vec![]
